@@ -27,6 +27,9 @@ TRANSPARENT_CALLS = {"String::clone", "str::to_owned", "str::to_string", "String
                      "String::from<str>", "String::from<&str>", "String::from<String>", "to_owned"}
 
 
+FACTS = None   # set by framework.get_facts: lets struct values made of named field symbols collapse to their base
+
+
 def strip_generics(s):
     """remove every ::<...> turbofish group (balanced)"""
     out = []
@@ -181,6 +184,14 @@ def norm(v):
     if k == "adt":
         name = v[2]
         args = tuple(norm(x) for x in v[3])
+        # a struct rebuilt from the named field symbols of one value is that value
+        if FACTS is not None and args and all(isinstance(a, str) and "." in a for a in args):
+            a = FACTS.adts.get(v[1])
+            if a and a["kind"] == "struct" and a["local"]:
+                names = [fl["name"] for fl in a["variants"][0]["fields"]]
+                bases = set(x.rsplit(".", 1)[0] for x in args)
+                if len(bases) == 1 and [x.rsplit(".", 1)[1] for x in args] == names:
+                    return bases.pop()
         return (name,) + args if args else name
     if k == "tup":
         return ("tuple",) + tuple(norm(x) for x in v[1])
